@@ -130,11 +130,21 @@ fn tampered(rng: &mut Rng, uni: &Universe, foreign: &Universe, valid: &[SignedEn
         }
         16 | 17 => {
             // around the future bound, correctly signed
-            let d = *rng.pick(&[FUTURE - 1, FUTURE, FUTURE + 1, FUTURE + 60_000_000, FUTURE - 1000]);
-            raw.ts = now + d;
-            raw.sign(&uni.ns, &uni.authors[a_idx]);
-            acceptable = d <= FUTURE;
-            kind = if acceptable { "timestamp-at-or-below-future-bound" } else { "timestamp-beyond-future-bound" };
+            if rng.chance(1, 3) {
+                // the far end of the type's range: half the range ahead of the clock and beyond,
+                // where a signed distance or a wrapping sum changes sign
+                let half = 1u64 << 63;
+                raw.ts = *rng.pick(&[u64::MAX, u64::MAX - 1, half - 1, half, half + 1, now + half - 1, now + half, now + half + 1, now + (1u64 << 62), u64::MAX - now, u64::MAX - FUTURE, u64::MAX - FUTURE + 1]);
+                raw.sign(&uni.ns, &uni.authors[a_idx]);
+                acceptable = false;
+                kind = "timestamp-at-the-far-end-of-the-range";
+            } else {
+                let d = *rng.pick(&[FUTURE - 1, FUTURE, FUTURE + 1, FUTURE + 60_000_000, FUTURE - 1000]);
+                raw.ts = now + d;
+                raw.sign(&uni.ns, &uni.authors[a_idx]);
+                acceptable = d <= FUTURE;
+                kind = if acceptable { "timestamp-at-or-below-future-bound" } else { "timestamp-beyond-future-bound" };
+            }
         }
         18 => {
             // signed by the right author but a different namespace secret, id left alone
